@@ -26,7 +26,7 @@ OPS = ["bfs", "dfs", "min", "min_skip", "attr", "target"]
 
 def cases(tier, seed):
     rng = random.Random(f"C15/{seed}")
-    nmax, count = (6, 600) if tier == "quick" else (8, 2500)
+    nmax, count = (6, 280) if tier == "quick" else (8, 2500)
     cl = [("rand", 3), ("gadget", 5), ("inputs", 3), ("dense-neg", 1), ("rand-wide", 1)]
     nets = gen.corpus() + [gen.draw(rng, cl, nmax) for _ in range(count)]
     out = []
